@@ -202,3 +202,24 @@ func DeadBlocks(fn *ssa.Function) map[*ssa.BasicBlock]bool {
 	}
 	return dead
 }
+
+// GuardedByNilTest reports whether edge b is only taken when a value accepted by match is nil
+// (wantNil) or non-nil.
+func GuardedByNilTest(b Edge, match func(ssa.Value) bool, wantNil bool) bool {
+	found := false
+	eachIf(b.From.Parent(), func(iff *ssa.If, cond ssa.Value, neg bool) {
+		v, nilIdx, ok := anyNilTest(iff)
+		if !ok || !match(v) {
+			return
+		}
+		si := nilIdx
+		if !wantNil {
+			si = 1 - nilIdx
+		}
+		blk := iff.Block()
+		if OnlyVia(blk, si, b.From) || (blk == b.From && blk.Succs[si] == b.To) {
+			found = true
+		}
+	})
+	return found
+}
